@@ -72,6 +72,10 @@ static void tsan_reexec(char **argv) {
   execv("/proc/self/exe", argv);
 }
 #endif
+/* The ThreadSanitizer build judges ONLY the race oracle.  Its inputs are a subset of what the ASan build judges with every
+ * other oracle, and behaviour after an out-of-range slice is not reproducible without ASan's redzones (heap reuse differs
+ * between a long-lived worker and a fresh replay process), which would turn a genuine finding into a replay divergence. */
+#define JUDGE(ok, ...) vx_check(H_TSAN ? 1 : (ok), __VA_ARGS__)
 static void race_reset(void) { g_race = 0; g_race_desc[0] = 0; }
 static void race_check(const char *fn, const char *cl) {
   if (!H_TSAN) return;
@@ -86,7 +90,7 @@ static const int TH_Q[] = {1, 2, 3, 8};
 /* selection enumerates EVERY size 1..n, so n = 80 (80 sizes, up to 8 threads per greedy step) is left to the thorough tier there */
 static int pick_n(int selection) { if (H_TSAN) { static const int t[] = {3, 5, 13}; return t[vx_choose("n", 3)]; } return NS[vx_choose("n", selection && !vx_thorough() ? 6 : 7)]; }
 static int pick_d(void) { if (H_TSAN) return vx_choose("d", 2) ? 3 : 1; return DS[vx_choose("d", 4)]; }
-static int pick_fam(void) { return vx_choose("fam", H_TSAN ? 1 : vx_thorough() ? 4 : 2); }
+static int pick_fam(void) { return vx_choose("fam", H_TSAN ? 1 : vx_thorough() ? 4 : 1); }
 static int pick_th(void) { if (H_TSAN) { static const int t[] = {2, 3, 8}; return t[vx_choose("threads", 3)]; } return vx_thorough() ? 1 + vx_choose("threads-1", 8) : TH_Q[vx_choose("threads", 4)]; }
 static matrix *gen(int fam, int r, int c, double scale) {
   double *b = malloc(sizeof(double) * (size_t)(r * c + 1)); vg_fill(fam, r, c, b);
@@ -127,7 +131,7 @@ static int judge_maxmin(const char *fn, const matrix *m, int metric, const uivec
   }
   if (best - second <= tie) near_tie = 1;
   snprintf(key, sizeof key, "maxdis-first|%s|%s", fn, cl);
-  vx_check(own >= best - tie, key, "%s(%d x %d): first selected object %zu lies %.12Lg from the centroid, the farthest object lies %.12Lg", fn, n, d, s->data[0], own, best);
+  JUDGE(own >= best - tie, key, "%s(%d x %d): first selected object %zu lies %.12Lg from the centroid, the farthest object lies %.12Lg", fn, n, d, s->data[0], own, best);
   ld *mind = malloc(sizeof(ld) * (size_t)n); char *sel = calloc((size_t)n, 1);
   for (int i = 0; i < n; i++) mind[i] = ref_metric(metric, m->data[i], m->data[s->data[0]], d);
   sel[s->data[0]] = 1;
@@ -142,7 +146,7 @@ static int judge_maxmin(const char *fn, const matrix *m, int metric, const uivec
     for (int i = 0; i < n; i++) { ld v = ref_metric(metric, m->data[i], m->data[c], d); if (v < mind[i]) mind[i] = v; }
   }
   snprintf(key, sizeof key, "maxdis-greedy|%s|%s", fn, cl);
-  vx_check(badstep < 0, key, "%s(%d x %d, %s): element %d of the selection has minimum %s value %.12Lg to those already chosen; another remaining object has %.12Lg", fn, n, d, MET[metric], badstep, MET[metric], badown, badbest);
+  JUDGE(badstep < 0, key, "%s(%d x %d, %s): element %d of the selection has minimum %s value %.12Lg to those already chosen; another remaining object has %.12Lg", fn, n, d, MET[metric], badstep, MET[metric], badown, badbest);
   free(cen); free(mind); free(sel);
   return near_tie;
 }
@@ -161,9 +165,9 @@ static void op_select(void) {
     MDC(m, (size_t)want, metric, s1, 1);
     race_reset(); MDC(m, (size_t)want, metric, st, (size_t)th); vx_transition(2); race_check("MDC", tc);
     snprintf(key, sizeof key, "selection-valid|MDC|%s", cl);
-    vx_check(valid_selection(st, want, n), key, "MDC(%d x %d, select %d, %s, %d threads): %zu indices returned, not %d distinct ones below %d", n, d, want, MET[metric], th, st->size, want, n);
+    JUDGE(valid_selection(st, want, n), key, "MDC(%d x %d, select %d, %s, %d threads): %zu indices returned, not %d distinct ones below %d", n, d, want, MET[metric], th, st->size, want, n);
     snprintf(key, sizeof key, "thread-independence|MDC|%s", tc);
-    vx_check(uiv_equal(s1, st), key, "MDC(%d x %d, select %d, %s): %d threads and 1 thread select different objects", n, d, want, MET[metric], th);
+    JUDGE(uiv_equal(s1, st), key, "MDC(%d x %d, select %d, %s): %d threads and 1 thread select different objects", n, d, want, MET[metric], th);
     h = uiv_hash(st, h); DelUIVector(&s1); DelUIVector(&st);
   } else if (method == 1) {     /* max-min dissimilarity, both implementations */
     uivector *a1, *at, *f1, *ft; initUIVector(&a1); initUIVector(&at); initUIVector(&f1); initUIVector(&ft);
@@ -172,14 +176,14 @@ static void op_select(void) {
     MaxDis_Fast(m, (size_t)want, metric, ft, (size_t)th); vx_transition(3); race_check("MaxDis_Fast", tc);
     int va = valid_selection(at, want, n), vf = valid_selection(ft, want, n), tie = 0;
     snprintf(key, sizeof key, "selection-valid|MaxDis|%s", cl);
-    vx_check(va, key, "MaxDis(%d x %d, select %d, %s, %d threads): %zu indices returned, not %d distinct ones below %d", n, d, want, MET[metric], th, at->size, want, n);
+    JUDGE(va, key, "MaxDis(%d x %d, select %d, %s, %d threads): %zu indices returned, not %d distinct ones below %d", n, d, want, MET[metric], th, at->size, want, n);
     snprintf(key, sizeof key, "selection-valid|MaxDis_Fast|%s", cl);
-    vx_check(vf, key, "MaxDis_Fast(%d x %d, select %d, %s, %d threads): %zu indices returned, not %d distinct ones below %d", n, d, want, MET[metric], th, ft->size, want, n);
+    JUDGE(vf, key, "MaxDis_Fast(%d x %d, select %d, %s, %d threads): %zu indices returned, not %d distinct ones below %d", n, d, want, MET[metric], th, ft->size, want, n);
     if (va) tie |= judge_maxmin("MaxDis", m, metric, at, 1.0, MET[metric]);
     if (vf) tie |= judge_maxmin("MaxDis_Fast", m, metric, ft, 1.0, MET[metric]);
-    if (va && vf && !tie) { snprintf(key, sizeof key, "maxdis-vs-fast|MaxDis,MaxDis_Fast|%s", cl); vx_check(uiv_equal(at, ft), key, "(%d x %d, select %d, %s): the two max-min implementations return different sequences", n, d, want, MET[metric]); }
-    snprintf(key, sizeof key, "thread-independence|MaxDis|%s", tc); vx_check(uiv_equal(a1, at), key, "MaxDis(%d x %d, select %d, %s): %d threads and 1 thread differ", n, d, want, MET[metric], th);
-    snprintf(key, sizeof key, "thread-independence|MaxDis_Fast|%s", tc); vx_check(uiv_equal(f1, ft), key, "MaxDis_Fast(%d x %d, select %d, %s): %d threads and 1 thread differ", n, d, want, MET[metric], th);
+    if (va && vf && !tie) { snprintf(key, sizeof key, "maxdis-vs-fast|MaxDis,MaxDis_Fast|%s", cl); JUDGE(uiv_equal(at, ft), key, "(%d x %d, select %d, %s): the two max-min implementations return different sequences", n, d, want, MET[metric]); }
+    snprintf(key, sizeof key, "thread-independence|MaxDis|%s", tc); JUDGE(uiv_equal(a1, at), key, "MaxDis(%d x %d, select %d, %s): %d threads and 1 thread differ", n, d, want, MET[metric], th);
+    snprintf(key, sizeof key, "thread-independence|MaxDis_Fast|%s", tc); JUDGE(uiv_equal(f1, ft), key, "MaxDis_Fast(%d x %d, select %d, %s): %d threads and 1 thread differ", n, d, want, MET[metric], th);
     h = uiv_hash(ft, uiv_hash(at, h + (uint64_t)tie)); DelUIVector(&a1); DelUIVector(&at); DelUIVector(&f1); DelUIVector(&ft);
   } else {                      /* k-means++ seeding */
     uivector *s1, *st; initUIVector(&s1); initUIVector(&st);
@@ -187,9 +191,9 @@ static void op_select(void) {
     srand_((uint32_t)(seed + 1)); vx_tick_reset(); KMeansppCenters(m, (size_t)want, s1, 1);
     race_reset(); srand_((uint32_t)(seed + 1)); vx_tick_reset(); KMeansppCenters(m, (size_t)want, st, th); vx_transition(2); race_check("KMeansppCenters", tc);
     snprintf(key, sizeof key, "selection-valid|KMeansppCenters|%s", want == n ? "select-all" : want == 1 ? "select-1" : "select-some");
-    vx_check(valid_selection(st, want, n), key, "KMeansppCenters(%d x %d, %d centres, seed %d, %d threads): %zu indices returned, not %d distinct ones below %d", n, d, want, seed + 1, th, st->size, want, n);
+    JUDGE(valid_selection(st, want, n), key, "KMeansppCenters(%d x %d, %d centres, seed %d, %d threads): %zu indices returned, not %d distinct ones below %d", n, d, want, seed + 1, th, st->size, want, n);
     snprintf(key, sizeof key, "thread-independence|KMeansppCenters|%s", tc);
-    vx_check(uiv_equal(s1, st), key, "KMeansppCenters(%d x %d, %d centres, seed %d): %d threads and 1 thread differ", n, d, want, seed + 1, th);
+    JUDGE(uiv_equal(s1, st), key, "KMeansppCenters(%d x %d, %d centres, seed %d): %d threads and 1 thread differ", n, d, want, seed + 1, th);
     h = uiv_hash(st, h); DelUIVector(&s1); DelUIVector(&st);
   }
   vx_outcome(h); DelMatrix(&m);
@@ -201,7 +205,7 @@ static void op_kmeans(void) {
   int init = vx_choose("init", 4), n = pick_n(0), d = pick_d(), fam = pick_fam();
   int kmax = n < 6 ? n : 6, k = 1 + vx_choose("k-1", kmax), th = pick_th();
   int seed = init < 2 ? vx_choose("seed", H_TSAN ? 1 : vx_thorough() ? 4 : 2) : 0;
-  double scale = vx_choose("scale", 2) ? 1e-4 : 1.0;
+  double scale = vx_choose("scale", vx_thorough() || n <= 8 ? 2 : 1) ? 1e-4 : 1.0;   /* quick: the small-scale copy only for n <= 8 */
   matrix *m = gen(fam, n, d, scale); const char *tc = thcls(n, th); char key[200], fn[48];
   snprintf(fn, sizeof fn, "KMeans:%s-init", INIT[init]);
   uivector *l1, *lt; matrix *c1, *ct; initUIVector(&l1); initUIVector(&lt); initMatrix(&c1); initMatrix(&ct);
@@ -216,10 +220,10 @@ static void op_kmeans(void) {
   if (cl[0] != 'g') snprintf(fn, sizeof fn, "KMeans");   /* these two classes do not depend on the initialiser: one key per class */
   int lab_ok = (int)lt->size == n; for (size_t i = 0; lab_ok && i < lt->size; i++) if (lt->data[i] >= (size_t)k) lab_ok = 0;
   snprintf(key, sizeof key, "labels-range|%s|%s", fn, cl);
-  vx_check(lab_ok, key, "KMeans(%d x %d, k=%d, %s, seed %d, %d threads): %zu labels, one is >= k or the count is not %d", n, d, k, INIT[init], seed + 1, th, lt->size, n);
+  JUDGE(lab_ok, key, "KMeans(%d x %d, k=%d, %s, seed %d, %d threads): %zu labels, one is >= k or the count is not %d", n, d, k, INIT[init], seed + 1, th, lt->size, n);
   int shape_ok = (int)ct->row == k && (int)ct->col == d;
   snprintf(key, sizeof key, "centroid-shape|%s|%s", fn, cl);
-  vx_check(shape_ok, key, "KMeans(%d x %d, k=%d): centroid matrix is %zu x %zu", n, d, k, ct->row, ct->col);
+  JUDGE(shape_ok, key, "KMeans(%d x %d, k=%d): centroid matrix is %zu x %zu", n, d, k, ct->row, ct->col);
   uint64_t h = 100 + (uint64_t)init;
   if (lab_ok && shape_ok) {
     /* each returned centroid is the mean of the objects carrying its label */
@@ -234,7 +238,7 @@ static void op_kmeans(void) {
       }
     }
     snprintf(key, sizeof key, "centroid-mean|%s|%s", fn, cl);
-    vx_check(worst <= 1.0, key, "KMeans(%d x %d, k=%d, %s, seed %d, %d threads, data scale %g, %ld iterations): centroid %d is not the mean of the objects labelled %d (%.3g x the rounding allowance)", n, d, k, INIT[init], seed + 1, th, scale, iters, wc, wc, worst);
+    JUDGE(worst <= 1.0, key, "KMeans(%d x %d, k=%d, %s, seed %d, %d threads, data scale %g, %ld iterations): centroid %d is not the mean of the objects labelled %d (%.3g x the rounding allowance)", n, d, k, INIT[init], seed + 1, th, scale, iters, wc, wc, worst);
     /* each object carries the label of a nearest centroid, up to the documented convergence tolerance */
     if (iters <= 100) {
       double allow = 2.0 * sqrt((double)d) * 1e-3, worstx = -INFINITY; int wi = -1;
@@ -243,13 +247,13 @@ static void op_kmeans(void) {
         if ((double)(own - best) > worstx) { worstx = (double)(own - best); wi = i; }
       }
       snprintf(key, sizeof key, "nearest-centroid|%s|%s", fn, cl);
-      vx_check(worstx <= allow, key, "KMeans(%d x %d, k=%d, %s, %ld iterations): object %d is %.6g farther from its own centroid than from the nearest one (allowance %.3g)", n, d, k, INIT[init], iters, wi, worstx, allow);
+      JUDGE(worstx <= allow, key, "KMeans(%d x %d, k=%d, %s, %ld iterations): object %d is %.6g farther from its own centroid than from the nearest one (allowance %.3g)", n, d, k, INIT[init], iters, wi, worstx, allow);
       vx_log("KMeans n=%d d=%d k=%d init=%s th=%d iters=%ld empty=%d: centroid-mean %.3g x allowance, nearest excess %.3g (allow %.3g)\n", n, d, k, INIT[init], th, iters, empty, worst, worstx, allow);
     }
     h = hm_hash(ct, uiv_hash(lt, h)) + (uint64_t)(iters > 100);
   }
   snprintf(key, sizeof key, "thread-independence|%s|%s", fn, tc);
-  vx_check(uiv_equal(l1, lt) && hm_maxdiff(c1, ct) <= 64.0 * DEPS * (n + 2) * maxabs, key, "KMeans(%d x %d, k=%d, %s, seed %d): labels/centroids with %d threads differ from 1 thread (max centroid difference %g)", n, d, k, INIT[init], seed + 1, th, hm_maxdiff(c1, ct));
+  JUDGE(uiv_equal(l1, lt) && hm_maxdiff(c1, ct) <= 64.0 * DEPS * (n + 2) * maxabs, key, "KMeans(%d x %d, k=%d, %s, seed %d): labels/centroids with %d threads differ from 1 thread (max centroid difference %g)", n, d, k, INIT[init], seed + 1, th, hm_maxdiff(c1, ct));
   vx_outcome(h);
   DelUIVector(&l1); DelUIVector(&lt); DelMatrix(&c1); DelMatrix(&ct); DelMatrix(&m);
 }
@@ -270,6 +274,6 @@ int main(int argc, char **argv) {
               "(long double, candidates within 1e-9 accepted); MaxDis == MaxDis_Fast when no step is a near-tie; labels < k; centroid = mean of its members to 64 eps (members+2) max|x|; "
               "own-centroid distance <= nearest + 2 sqrt(d) 1e-3 when fewer than 101 iterations ran; results equal to the 1-thread run");
   vx_set_shard_depth(6);
-  vx_expect_outcomes(H_TSAN ? 100 : 1500);
+  vx_expect_outcomes(H_TSAN ? 100 : 1000);
   return vx_main(argc, argv, "C17", body);
 }
